@@ -1454,7 +1454,7 @@ func matrixShapes() []shape {
 type keyShape struct {
 	name   string
 	val    interface{}
-	panics bool // the key type makes mapstructure panic (known finding F12)
+	panics bool // the key type makes mapstructure panic inside pointerstructure.Get (F12, fixed by 240ca2a: getValue recovers; a panic of Evaluate is a C09 violation again)
 }
 
 type keyS struct{ A int }
@@ -1492,7 +1492,8 @@ func keyShapes() []keyShape {
 		{"map[*complex128]int", map[*complex128]int{nil: 2}, false}, {"map[*[1]int]int", map[*[1]int]int{nil: 2, {1}: 1}, false}, {"map[*[0]int]int", map[*[0]int]int{nil: 2, {}: 1}, false},
 		{"map[*[1]keyE]int", map[*[1]keyE]int{nil: 2, {}: 1}, false}, {"map[*[1]interface{}]int", map[*[1]interface{}]int{nil: 2}, false}, {"map[*[2]float64]int", map[*[2]float64]int{nil: 2}, false},
 		{"map[*unsafe.Pointer]int", map[*unsafe.Pointer]int{nil: 2}, false},
-		// F12: the key type leads, below a pointer, to an array of an uncomparable element type
+		// (F12, fixed) the key type leads, below a pointer, to an array of an uncomparable element type: the
+		// library panics, safeGet recovers, Evaluate must answer (false, error)
 		{"map[*[1][]int]int", map[*[1][]int]int{nil: 2}, true}, {"map[*[0][]int]int", map[*[0][]int]int{nil: 2}, true}, {"map[*[1]map]int", map[*[1]map[string]int]int{nil: 2}, true},
 		{"map[*[1]func]int", map[*[1]func()]int{nil: 2}, true}, {"map[*[][1][]int]int", map[*[][1][]int]int{nil: 2}, true}, {"map[**[1][]int]int", map[**[1][]int]int{nil: 2}, true},
 		{"map[[1]*[1][]int]int", map[[1]*[1][]int]int{{nil}: 2}, true}, {"map[*[1][1][]int]int", map[*[1][1][]int]int{nil: 2}, true}, {"map[*[1]struct{[]int}]int", map[*[1]struct{ X []int }]int{nil: 2}, true},
@@ -1635,14 +1636,11 @@ func fragMatrix(g *Gen, n int, o *Out) {
 					keyTotal++
 					o.count("keys:" + norm(r))
 					if r == "P" || r == "E1" {
-						what, class := "Evaluate panics", ""
+						what := "Evaluate panics"
 						if r == "E1" {
 							what = "error returned together with true"
-						} else if sh.panics {
-							// F12: mapstructure.decodeArray compares values of an uncomparable array type
-							class = "pointer-key-to-uncomparable-array"
 						}
-						o.finding(Finding{Property: "C09", Kind: "failing-input", What: fmt.Sprintf("%s: lookup of %q in %s", what, part, sh.name), Request: lastReq(o), Detail: text, Class: class})
+						o.finding(Finding{Property: "C09", Kind: "failing-input", What: fmt.Sprintf("%s: lookup of %q in %s", what, part, sh.name), Request: lastReq(o), Detail: text})
 					}
 				}
 			}
